@@ -429,12 +429,13 @@ def run(ctx):
     ctx.prove("Props/C06.v")
     symrun.run(ctx, kernels=["KCosine"])
     thorough = ctx.tier == "thorough"
-    lens_fn = exprun.full_lens if thorough else exprun.quick_lens
-    places = ("R", "L", "3") if thorough else ("R",)
+    # thorough: every length that changes a loop trip count (the grid of the symbolic run), two placements
+    lens_fn = symrun.dims_grid if thorough else exprun.quick_lens
+    places = ("R", "3") if thorough else ("R",)
     # element-wise value classes through the shared driver (spec_int decides the integer cases; floats: model only)
     exprun.run_property(ctx, "C:cosine", "C06", ops=["generic_cosine"],
-                        classes=("random", "boundary", "small", "special") if thorough else ("small", "boundary"),
-                        lens_fn=lens_fn, places=places, seed_tag=6)
+                        classes=("random", "boundary", "small") if thorough else ("small", "boundary"),
+                        lens_fn=exprun.full_lens if thorough else exprun.quick_lens, places=("R",), seed_tag=6)
     # the const-dimension form of every cosine export (xconst::<D>), same oracles
     exprun.run_property(ctx, "C:cosine-xconst", "C06", ops=["generic_cosine"], classes=("small", "random"),
                         lens_fn=lambda L: CONST_DIMS if thorough else CONST_DIMS_QUICK, places=("R",), forms=("c",),
